@@ -44,13 +44,30 @@ def erfF (x : Float) : Float :=
       1.0 - Float.exp (-(a * a)) / (sqrtPi * cf 200 a)
   if x < 0 then -r else r
 
+/-- exact C `fmod` for `a ≥ 0`, `b > 0`: subtract the largest `b·2^k ≤ a` (each subtraction is exact by Sterbenz) -/
+partial def fmodPos (a b : Float) : Float :=
+  if !(a >= b) then a else
+    let rec up (t : Float) : Float := if t * 2.0 <= a then up (t * 2.0) else t
+    fmodPos (a - up b) b
+
+/-- CPython `float_floor_div` for positive operands: `mod = fmod(a, b); div = (a - mod) / b; floor(div)` with the
+half-way correction — the exact floor of the real quotient, unlike `floor(a / b)` (e.g. `10.0 // 0.1 = 99`) -/
+def pyFloorDiv (a b : Float) : Int :=
+  if a > 0.0 && b > 0.0 && a < 1e300 && b < 1e300 then
+    let m := fmodPos a b
+    let d := (a - m) / b
+    let f := Float.floor d
+    let f := if d - f > 0.5 then f + 1.0 else f
+    f.toInt64.toInt
+  else (Float.floor (a / b)).toInt64.toInt
+
 def extF : Ext Float :=
   { c := lit Cherab.Gen.LaserEdges.speedOfLight.1 Cherab.Gen.LaserEdges.speedOfLight.2
     pi := 3.141592653589793
     sqrt := Float.sqrt
     exp := Float.exp
     erf := erfF
-    floorDiv := fun a b => (Float.floor (a / b)).toInt64.toInt
+    floorDiv := pyFloorDiv
     toNat := fun x => x.toUInt64.toNat }
 
 def resS : Res → String
